@@ -118,8 +118,8 @@ theorem xsiNilOf_none (a : List (QN × Str)) (h : ∀ kv ∈ a, kv.1 ≠ xsiNil)
 
 theorem buildNode_prim (e : BEnv) (Γ : Ctx) {m : XmlMeta} {var : XmlVar} (hf : ElemFacts m var)
     (hcl : var.clazz = none) (M : NsMap) :
-    buildNode e Γ m var.qname var [] M = .ok (some (.primitive m var M)) := by
-  simp [buildNode, hf.union, xsiTypeOf, hcl, hf.anyType, VarCore.isWildcard, hf.isElem,
+    buildNode e Γ m var.qname var [] M = .ok (some (.primitive m var M false)) := by
+  simp [buildNode, hf.union, xsiTypeOf, xsiNilOf, hcl, hf.anyType, VarCore.isWildcard, hf.isElem,
     bind, Except.bind, pure, Except.pure]
 
 theorem buildNode_cls (e : BEnv) (Γ : Ctx) {m : XmlMeta} {var : XmlVar} (hf : ElemFacts m var)
@@ -138,8 +138,8 @@ theorem parseNode_prim (e : BEnv) (Γ : Ctx) (pcfg : ParserConfig) {m : XmlMeta}
     (hf : ElemFacts m var) (hw : m.wildcards = []) (p : PVal) (t : PT) (hty : var.types = [.prim t])
     (hpt : primHasType p t = true) (M : NsMap)
     (hempty : p = .str [] → var.default = .none ∨ var.default = .val (.str []) ∨
-      var.default = .listFactory) :
-    parseNode e Γ pcfg (.primitive m var M) (.node var.qname [] M (primText p) [] none) =
+      var.default = .listFactory) (nil : Bool := false) :
+    parseNode e Γ pcfg (.primitive m var M nil) (.node var.qname [] M (primText p) [] none) =
       .ok ⟨[(some var.qname, .prim p)], 0⟩ := by
   rw [parseNode]
   by_cases hs : serPrim p = []
